@@ -88,6 +88,22 @@ func runC13(rc *RunCtx) {
 		blocks = 400 + rc.Intn(1600)
 	}
 	gov := rc.Chance(0.25)
+	// anchored by case number (a seeded change needed exactly this and the random draws reached it by luck only): a running,
+	// slowly decreasing emission with a non-zero stipend share whose receiving address governance then changes
+	stipendMove := rc.Case%16 == 5
+	if stipendMove {
+		gov = true
+		if tr.p == 0 || tr.s+tr.d+tr.p > 100 {
+			tr = triple{50, 25, 25}
+		}
+		if tpb < 100 {
+			tpb = 4_200_000
+		}
+		if dec > 100_000_000 {
+			dec = 6
+		}
+		mp = minttypes.NewParams(denom, tr.d, tpb, tr.s, dec, stipend, tr.p)
+	}
 	cfg := chain.Config{Seed: rc.Seed, NAcc: 2, Mint: &mp}
 	if gov {
 		cfg.GovVotingSeconds = 10
@@ -299,7 +315,11 @@ func runC13(rc *RunCtx) {
 			govDone = true
 			// one governance change that keeps the ratio sum <= 100
 			var err error
-			switch rc.Intn(7) {
+			kind := rc.Intn(7)
+			if stipendMove {
+				kind = 4
+			}
+			switch kind {
 			case 6:
 				// TokensPerBlock lowered below the running emission (and, in other cases, raised again by case 3)
 				nt := prevE.QuoRaw(2).Int64()
